@@ -67,3 +67,7 @@ claim('C02', 'CBMC on the real compiler locals bookkeeping (init_locals, add_loc
       'Solver-decided memory safety of every table write against the blocks really allocated, cursors back at base and no stale local binding after unwinding, limit on the total number of local slots across sibling blocks; per-level counts are concrete per run, everything else is executed symbolically.',
       'Only the locals kernel of C02 is covered: lexer, preprocessor, mem_block growth, scratchpad, identifier table and termination of yyparse are not; the bison actions are replayed, not called.',
       'DESIGN.md 5/C02')
+claim('C09', 'CBMC on the real process_io event dispatch with a NULL / sparse connection table and wake-up or console events',
+      'Solver-decided: a timer wake-up or a console completion arriving on a driver with no connection at all (table NULL), with an empty console slot or with a populated table is dispatched without memory errors, whatever the event bits and the outcome of the console reconnect.',
+      'Only this slice of C09 is covered: user socket events, the backend loop and its error recovery site, process_user_command callbacks and remove_interactive are not yet encoded (the heart-beat error clause is decided under C11, call_out error branches under C10).',
+      'DESIGN.md 5/C09')
